@@ -275,7 +275,10 @@ func runSupervisor(args []string) int {
 			kids = append(kids, &childState{shard: i, race: true, dir: filepath.Join(work, fmt.Sprintf("r%02d", i))})
 		}
 	}
-	watchdog := 20 * time.Minute
+	watchdog := 6 * time.Minute
+	if c.tier == "thorough" {
+		watchdog = 90 * time.Minute
+	}
 	if p.Watchdog != nil {
 		watchdog = p.Watchdog(c.tier)
 	}
